@@ -393,6 +393,61 @@ class ConcurrentGenerated(Part):
             ctx.nontrivial = True
 
 
+class FirstUseInterrupted(Part):
+    name = "first-use-interrupted"
+    custom = True
+    exhaustive = True
+    rule = ("in a fresh interpreter the first colour conversion of the process (an indexed or an RGB colour to standard / windows) is aborted by a KeyboardInterrupt raised at the K-th "
+            "executed line of color.py / palette.py, K = 1..48 (quick: every third) ; the program goes on and converts all 240 indexed and 216 grid colours: every result is a nearest "
+            "entry; non-trivial = the interrupt fell inside the conversion")
+    budget = {"quick": (16, 1), "thorough": (16, 1)}
+
+    def run_shard(self, tier, shard, nshards, seed, stats, deadline, known):
+        import json
+        import os
+        import subprocess
+        import sys
+        import time as _t
+
+        here = os.path.dirname(os.path.dirname(os.path.abspath(__file__)))
+        jobs = [(k, first, sysname) for k in range(1, 49, 3 if tier == "quick" else 1) for first in ("indexed", "rgb") for sysname in ("STANDARD", "WINDOWS")]
+        n = nt = 0
+        for ji, (k, first, sysname) in enumerate(jobs):
+            if ji % nshards != shard:
+                continue
+            if _t.time() > deadline:
+                stats.capped = True
+                break
+            p = subprocess.run([sys.executable, "-B", os.path.join(here, "first_use_c18.py"), str(k), first, sysname], stdout=subprocess.PIPE, stderr=subprocess.PIPE, text=True, timeout=120,
+                               env=dict(os.environ, PYTHONHASHSEED="0"))
+            if p.returncode != 0:
+                stats.harness_error = "first_use_c18.py failed: %s" % p.stderr[-400:]
+                break
+            res = json.loads(p.stdout.strip().splitlines()[-1])
+            n += 1
+            nt += 1 if res["interrupted"] else 0
+            if res["problems"] and "C18/firstuse/wrong-after-interrupt" not in stats.found and not known.match("C18/firstuse/wrong-after-interrupt"):
+                stats.found["C18/firstuse/wrong-after-interrupt"] = {"spec": {"k": k, "first": first, "system": sysname}, "clause": "nearest", "size": 1, "part": self.name,
+                                                                    "detail": "after the first conversion (%s -> %s) was interrupted at line %d: %s" % (first, sysname, k, "; ".join(res["problems"]))}
+        stats.evaluations += n
+        stats.nontrivial_count_distinct += nt
+        if not stats.capped:
+            stats.done += 1
+        stats.samples.append((1, {"shard": shard, "processes": n, "example": {"k": 20, "first": "indexed", "system": "STANDARD"}}, "range"))
+
+    def replay(self, spec, ctx):
+        import json
+        import os
+        import subprocess
+        import sys
+
+        here = os.path.dirname(os.path.dirname(os.path.abspath(__file__)))
+        p = subprocess.run([sys.executable, "-B", os.path.join(here, "first_use_c18.py"), str(spec["k"]), spec["first"], spec["system"]], stdout=subprocess.PIPE, stderr=subprocess.PIPE, text=True, timeout=120)
+        res = json.loads(p.stdout.strip().splitlines()[-1])
+        if res["problems"]:
+            ctx.violation("nearest", "C18/firstuse/wrong-after-interrupt", "; ".join(res["problems"]))
+
+
 class Enumerated(Part):
     name = "enumerated"
     custom = True
@@ -522,4 +577,4 @@ class Enumerated(Part):
             check_codes(ctx, d)
 
 
-PARTS = [Generated(), Enumerated(), StyleCodes(), Concurrent(), ConcurrentGenerated()]
+PARTS = [Generated(), Enumerated(), StyleCodes(), Concurrent(), ConcurrentGenerated(), FirstUseInterrupted()]
